@@ -214,6 +214,9 @@ Or(a, b) == [k |-> "OR", n |-> 0, s |-> <<>>, f |-> <<>>, set |-> <<>>, sub |-> 
 List(ts) == [k |-> "LIST", n |-> 0, s |-> <<>>, f |-> <<>>, set |-> <<>>, sub |-> ts]
 
 R(a, b) == [a |-> a, b |-> b]
+\* unions whose ranges are not written in ascending order (0 stands for "*")
+UnorderedUid == {<<R(8, 8), R(2, 3)>>, <<R(5, 5), R(2, 2)>>, <<R(0, 0), R(2, 2)>>, <<R(5, 8), R(3, 3), R(2, 2)>>}
+UnorderedSeq == {<<R(3, 4), R(1, 1)>>, <<R(3, 3), R(1, 1)>>, <<R(0, 0), R(1, 1)>>, <<R(3, 3), R(2, 2), R(1, 1)>>, <<R(2, 3), R(1, 2)>>}
 
 FlagKinds == {"ALL", "ANSWERED", "DELETED", "DRAFT", "FLAGGED", "NEW", "OLD", "RECENT", "SEEN",
               "UNANSWERED", "UNDELETED", "UNDRAFT", "UNFLAGGED", "UNSEEN"}
@@ -234,9 +237,12 @@ FullLeaves ==
   \cup {LeafH(hXCust, <<>>), LeafH(pXCUST, pVal), LeafH(pXCustLow, tVal), LeafH(pSubjectLow, pFox), LeafH(pXNone, <<>>)}
   \cup {LeafSet("UID", s) : s \in {<<R(5, 5)>>, <<R(4, 4)>>, <<R(3, 6)>>, <<R(0, 0)>>, <<R(1, 0)>>, <<R(9, 9)>>}}
   \cup {LeafSet("SEQ", s) : s \in {<<R(1, 1)>>, <<R(2, 3)>>, <<R(0, 0)>>, <<R(1, 0)>>, <<R(4, 4)>>, <<R(5, 5)>>, <<R(3, 1)>>, <<R(1, 1), R(3, 3)>>}}
+  \* unions written in any order: ranges of a set are NOT sorted by the client (UnorderedSets)
+  \cup {LeafSet("UID", s) : s \in UnorderedUid} \cup {LeafSet("SEQ", s) : s \in UnorderedSeq}
 
 \* representative leaves, one or two per family
 Pair_Quick ==
+  {LeafSet("UID", <<R(8, 8), R(2, 3)>>), LeafSet("SEQ", <<R(3, 4), R(1, 1)>>), LeafSet("SEQ", <<R(3, 3), R(2, 2), R(1, 1)>>)} \cup
   {Leaf(k) : k \in {"ALL", "SEEN", "UNSEEN", "DELETED", "FLAGGED", "NEW", "RECENT"}}
   \cup {LeafS("KEYWORD", pKW1), LeafS("UNKEYWORD", pKw1)}
   \cup {LeafN("BEFORE", 2), LeafN("ON", 2), LeafN("SINCE", 2), LeafN("SENTBEFORE", 3), LeafN("SENTON", 2), LeafN("SENTSINCE", 2)}
@@ -477,6 +483,12 @@ BadIffBeyond ==
     (Expected.res = "BAD" <=>
        \E j \in 1..Len(keys) : \E l \in Leaves(keys[j]) :
           l.k = "SEQ" /\ (N = 0 \/ \E x \in 1..Len(l.set) : SeqVal(l.set[x].a, N) > N \/ SeqVal(l.set[x].b, N) > N))
+
+\* the ranges of a set are a union: writing them in another order selects the same messages
+Reverse(sq) == [i \in 1..Len(sq) |-> sq[Len(sq) + 1 - i]]
+SetOrderIrrelevant ==
+  keys = <<>> =>
+    \A t \in {x \in FullLeaves : x.k \in {"UID", "SEQ"}} : Pos(<<t>>) = Pos(<<[t EXCEPT !.set = Reverse(t.set)]>>)
 
 \* relations between leaf keys, checked once per box
 L1(t) == Pos(<<t>>)
